@@ -2,6 +2,7 @@
    definitions REGENERATED from /repo's current source by translate/py2coq_wiring.py (coq/Gen/WiringGen.v):
      gen_middlewares / gen_chain / gen_setup_effects   start_server, from `middlewares = []` to the chain assignment
      gen_start                                          the same statements continued through both create_server calls
+     gen_boot                                           ... preceded by the selection of the TLS contexts (C20)
      gen_get_*_config, gen_serve_args                   ServerConfig's derivations and the call of start_server in __main__
      factories, chain_var                               the table of protocol factories (source texts)
    The protocol-level part of C04 (a protocol object consults the chain it was given before any handler runs) is
@@ -151,6 +152,76 @@ Print Assumptions backend_choice.
 Print Assumptions listen_factories_tie.
 Print Assumptions protocol_consults_the_wired_list.
 Print Assumptions start_calls.
+
+(* ================= the selection of the TLS contexts, then the listener (gen_boot; property C20) ================= *)
+(* gen_boot: start_server from `ssl_context = None; pyopenssl_ctx = None` through the four branches that call a context
+   builder to the create_server calls.  The builders are ORACLE arguments that return a context (the translator checks
+   that every `return` of their defs returns a constructed object; what they set on it is Gen/TlsConfigGen.v, Props/C20). *)
+Definition opt_truthy (o : option pathlike) : bool := match o with Some v => pathlike_truthy v | None => false end.
+Definition opt_path_str (o : option pathlike) : str := match o with Some v => pathlike_str v | None => lit "None" end.
+
+Section Boot.
+Context {T_router A_route T_sslctx T_pyctx U : Type}.
+Variables (attr_route : T_router -> A_route)
+          (o_server : str -> str -> bool -> T_sslctx) (o_self_signed : bool -> T_sslctx)
+          (o_pyopenssl : str -> str -> bool -> T_pyctx) (o_self_signed_pyopenssl : unit -> T_pyctx)
+          (config : py_ServerConfig)
+          (en : bool) (rl : option py_RateLimitConfig) (ac : option py_AccessControlConfig) (ca : option py_CertificateAuthConfig)
+          (router : T_router).
+
+(* `config.certfile and config.keyfile` *)
+Definition has_cert_files : bool := opt_truthy (ServerConfig_certfile config) && opt_truthy (ServerConfig_keyfile config).
+Definition cert_text : str := opt_path_str (ServerConfig_certfile config).
+Definition key_text : str := opt_path_str (ServerConfig_keyfile config).
+
+(* which builder, for (client certificates requested?) x (certfile and keyfile given?) *)
+Definition chosen_builder : string :=
+  if uses_pyopenssl config ca
+  then (if has_cert_files then "create_pyopenssl_server_context" else "_create_self_signed_pyopenssl_context")
+  else (if has_cert_files then "create_server_context" else "_create_self_signed_context").
+Definition chosen_pyctx : option T_pyctx :=
+  if uses_pyopenssl config ca
+  then Some (if has_cert_files then o_pyopenssl cert_text key_text true else o_self_signed_pyopenssl tt)
+  else None.
+Definition chosen_sslctx : option T_sslctx :=
+  if uses_pyopenssl config ca
+  then None
+  else Some (if has_cert_files then o_server cert_text key_text false else o_self_signed false).
+
+Definition booted := gen_boot (U_upload := U) attr_route o_server o_self_signed o_pyopenssl o_self_signed_pyopenssl
+                              config en rl ac ca router.
+
+(* gen_boot = one builder call, then gen_start on the contexts that call produced *)
+Theorem boot_tie :
+  booted = (gen_middlewares en rl ac ca, gen_chain en rl ac ca,
+            EffBuild chosen_builder :: snd (started (U := U) attr_route config en rl ac ca router chosen_sslctx chosen_pyctx)).
+Proof. exact (EquivWiring_proofs.boot_tie en rl ac ca attr_route o_server o_self_signed o_pyopenssl o_self_signed_pyopenssl config router). Qed.
+
+(* exactly one builder is called, the one of the case *)
+Theorem context_choice : builds (snd booted) = [chosen_builder].
+Proof. exact (EquivWiring_proofs.context_choice en rl ac ca attr_route o_server o_self_signed o_pyopenssl o_self_signed_pyopenssl config router). Qed.
+
+(* the single listener: wrapped iff client certificates are requested, then with the PyOpenSSL context just built;
+   otherwise ssl= the standard-library context just built; in both cases the chain and the router of (c) *)
+Theorem listener_protection : exists f, listen_factories (snd booted) = [f] /\
+  app_proto (f tt) = (attr_route router, gen_chain en rl ac ca, None) /\
+  is_tls_wrapped (f tt) = uses_pyopenssl config ca /\
+  (uses_pyopenssl config ca = true ->
+     exists ctx, chosen_pyctx = Some ctx /\ f tt = PTls (app_factory (U := U) attr_route en rl ac ca router) ctx) /\
+  listen_ssl (snd booted) = [chosen_sslctx] /\
+  (uses_pyopenssl config ca = false -> exists ctx, chosen_sslctx = Some ctx).
+Proof. exact (EquivWiring_proofs.listener_protection en rl ac ca attr_route o_server o_self_signed o_pyopenssl o_self_signed_pyopenssl config router). Qed.
+
+(* for every configuration the single listener that is started is TLS-protected: the fall-through "use_pyopenssl but
+   pyopenssl_ctx is None -> create_server(ssl=None)" is unreachable *)
+Theorem no_plaintext_listener : exists f s, listen_factories (snd booted) = [f] /\ listen_ssl (snd booted) = [s] /\
+  ((exists inner ctx, f tt = PTls inner ctx) \/ (exists ctx, s = Some ctx /\ is_tls_wrapped (f tt) = false)).
+Proof. exact (EquivWiring_proofs.no_plaintext_listener en rl ac ca attr_route o_server o_self_signed o_pyopenssl o_self_signed_pyopenssl config router). Qed.
+End Boot.
+Print Assumptions boot_tie.
+Print Assumptions context_choice.
+Print Assumptions listener_protection.
+Print Assumptions no_plaintext_listener.
 
 (* ================= (c) the table of protocol factories (source texts) ================= *)
 (* every row passes the variable the chain was assigned to, the same handler expression, no upload handler, and ends in
